@@ -7,7 +7,7 @@ NOT_APPLICABLE = {pid: 'check not built yet (work in progress; see DESIGN.md sec
                   for pid in ['C%02d' % i for i in range(1, 21)]}
 
 # properties whose check is finished and registered in MANIFEST.json (others stay runnable via ./check)
-ENABLED = ['C01', 'C02', 'C03', 'C04', 'C05', 'C06', 'C07', 'C08', 'C09', 'C10', 'C11', 'C12', 'C13', 'C16', 'C18', 'C19', 'C20']
+ENABLED = ['C%02d' % i for i in range(1, 21)]
 
 TRUSTED = ('Trusted base: the simulator (txsim.core), the scripted Tor peer written from control-spec / RFC 1928 / '
            'dir-spec (its reading of the specs is the reference), Twisted Deferred/LineOnlyReceiver, CPython. '
